@@ -26,6 +26,7 @@ open Proto Load
       i3 <fmt> <mode> <bs> <stages> <cfgFields> <dsFields> <expRen> <mcRen> <grlRen> <keep> <prep> <livetime|*>
          <expfiles|-> <mcfiles|-> <grlfiles|->   (I3Dataset.load_and_prepare_data)
         -> ok exp=… mc=… grl=… livetime=<bits|none> | err <class>
+      alias <listed names|-> <app:name|pop|rev|clear,…>  -> the data set's file list after the caller changed its own list object
       abspaths <root_dir> <a:name|r:name,…>  -> resolved names in listed order (get_abs_pathfilename_list)
       orcheck <stage> <stages>  -> 0|1
 -/
@@ -189,6 +190,14 @@ def answer (line : String) : String :=
         | some v => toString v
       s!"ok exp={fOpt e} mc={fOpt m} grl={fOpt g} livetime={ls}"
     | .error e => "err " ++ fErr e
+  | ["alias", initial, ops] =>
+    -- the data set's file list after the caller changed the list object it defined the data set with
+    let os : List (ListOp String) := (pList id ops).map (fun x =>
+      if x.startsWith "app:" then ListOp.append (x.drop 4).toString
+      else if x == "pop" then .pop else if x == "rev" then .reverse else .clear)
+    match fileListAfter defineCopy (pList id initial) os with
+    | some l => fListD id l
+    | none => "ERR"
   | ["abspaths", root, entries] =>
     -- Dataset.get_abs_pathfilename_list: entries `a:<absolute name>` | `r:<relative name>`
     let es : List (PathEntry String) := (pList id entries).map (fun x =>
